@@ -137,12 +137,39 @@ def run(ctx):
             ok, what = moved, "moved into the request's body reader" if moved else "a locally filled buffer is not handed on"
         ctx.ob("C13.2", "%s|buffer" % g.id, "bytes read from the socket into a local buffer are handed on whole (or discarded only by a draining destructor)", ok, g.loc(bb), what)
 
+    # a discarding loop must not take bytes beyond the body it discards: whether it would depends on how much of the
+    # following message has already arrived, i.e. on segmentation
+    for g, bb, t in sites:
+        if g.rec.get("impl_trait") == T_DROP and g.in_loop(bb):
+            ctr = {s_["lhs"]["l"] for b_, i_, s_ in g.assigns() if not s_["lhs"]["p"] and s_["rhs"]["rv"] == "use" and origin_fields(g.origin(s_["rhs"]["op"])) & {"size", "remaining", "len"}}
+            if not ctr:
+                continue       # drains driven by the decoder's own framing (chunked) have no byte counter
+            okb, why = shared.read_buffer_bounded_by(g, bb, ctr)
+            ctx.ob("C13.2", "%s|discard-bounded" % g.id, "a discarding read asks for at most the bytes still owed to the body being discarded", okb, g.loc(bb), why)
+
     # ---- C13.3 loop-carried parser state in the line reader
+    line_reader_rules(ctx, facts, "C13.3")
+    return {}
+
+
+def line_reader_rules(ctx, facts, RULE):
+    """the line reader assembles a line byte by byte: one buffer created before the loop, the `previous byte was CR`
+    state carried across iterations, every byte kept until the terminator"""
+    rnl = roles.inherent(facts, CC, "read_next_line")
     f = rnl
     ctx.touch(f)
+    bsites = [(bb, t) for bb, t in f.calls() if t.get("callee") == "std::io::Read::bytes"]
+    std_lines = [bb for bb, t in f.calls() if t.get("callee") in ("std::io::BufRead::read_until", "std::io::BufRead::read_line")]
+    hand_rolled = [bb for bb, t in f.calls() if t.get("callee") in ("std::io::Read::read", "std::io::BufRead::fill_buf", "std::io::BufRead::consume")]
+    ok_bytes = len(bsites) == 1 and f.in_loop(bsites[0][0]) and not hand_rolled
+    ok_std = bool(std_lines) and not hand_rolled and not bsites
+    ctx.ob(RULE, "%s|byte-wise" % f.id, "the line reader takes its input one byte at a time, or through std's read_until (it can neither split a line at a buffer edge nor swallow the start of the next one)",
+           ok_bytes or ok_std, "%s:%d" % (f.file, f.line), None if (ok_bytes or ok_std) else "hand-written scanning of buffered chunks: a CR LF pair straddling two buffer fills cannot be shown to be handled")
+    if ok_std:
+        return
     vnew = [bb for bb, t in f.calls() if call_matches(t, r"^std::vec::Vec::<T>::(new|with_capacity)$")]
     ok = bool(vnew) and all(not f.in_loop(b) for b in vnew)
-    ctx.ob("C13.3", "%s|line-buffer-outside-loop" % f.id, "the line buffer is created once, before the byte loop (a line split across reads is not lost)", ok, "%s:%d" % (f.file, f.line))
+    ctx.ob(RULE, "%s|line-buffer-outside-loop" % f.id, "the line buffer is created once, before the byte loop (a line split across reads is not lost)", ok, "%s:%d" % (f.file, f.line))
     # the CR flag: a bool local with one constant definition outside the loop and one computed definition inside it
     okf = False
     for i, l in enumerate(f.locals):
@@ -154,10 +181,10 @@ def run(ctx):
         const_inside = [d for d in defs if f.in_loop(d[1]) and d[3]["rv"] == "use" and isinstance(op_const(d[3]["op"]), bool)]
         if outside and inside and not const_inside:
             okf = True
-    ctx.ob("C13.3", "%s|cr-state-loop-carried" % f.id, "`previous byte was CR` is carried across iterations (initialised before the loop, updated from each byte, never reset inside)", okf, "%s:%d" % (f.file, f.line))
+    ctx.ob(RULE, "%s|cr-state-loop-carried" % f.id, "`previous byte was CR` is carried across iterations (initialised before the loop, updated from each byte, never reset inside)", okf, "%s:%d" % (f.file, f.line))
     pushes = [bb for bb, t in f.calls() if call_matches(t, r"Vec::<T(, A)?>::push$")]
     ok = bool(pushes) and all(f.in_loop(b) for b in pushes)
-    ctx.ob("C13.3", "%s|every-byte-kept" % f.id, "every byte read is appended to the line buffer until the terminator", ok, "%s:%d" % (f.file, f.line))
+    ctx.ob(RULE, "%s|every-byte-kept" % f.id, "every byte read is appended to the line buffer until the terminator", ok, "%s:%d" % (f.file, f.line))
     return {}
 
 
